@@ -312,6 +312,26 @@ type fsWorld struct {
 	tfs     *tarfs.VerifMemFS
 	handles []apkfs.File
 	dir     string // dirfs
+	scratch []byte // every payload is handed over as a slice of this one re-used buffer (spare capacity included)
+}
+
+// payload copies d into the caller-owned scratch buffer, the way a real caller re-uses its buffers: the file
+// system must keep its own copy (a stored alias changes file contents behind its back once scribble() runs,
+// and an append through the alias's spare capacity overwrites a neighbour's bytes)
+func (w *fsWorld) payload(d string) []byte {
+	if cap(w.scratch) < len(d)+64 {
+		w.scratch = make([]byte, 0, 2*len(d)+4096)
+	}
+	w.scratch = w.scratch[:cap(w.scratch)]
+	copy(w.scratch, d)
+	return w.scratch[:len(d)]
+}
+
+func (w *fsWorld) scribble() {
+	b := w.scratch[:cap(w.scratch)]
+	for i := range b {
+		b[i] = 0xEE
+	}
 }
 
 func (w *fsWorld) dump() string {
@@ -389,7 +409,8 @@ func (w *fsWorld) apply(o fsOp) string {
 		if h == nil {
 			return "nohandle"
 		}
-		n, err := h.Write([]byte(o.D))
+		n, err := h.Write(w.payload(o.D))
+		w.scribble()
 		if err != nil {
 			return fsErr(err)
 		}
@@ -419,9 +440,15 @@ func (w *fsWorld) apply(o fsOp) string {
 		if err != nil {
 			return fsErr(err)
 		}
-		return "b" + hex.EncodeToString(b)
+		out := "b" + hex.EncodeToString(b)
+		for i := range b { // the caller owns what ReadFile returned
+			b[i] ^= 0xFF
+		}
+		return out
 	case "writefile":
-		return fsErr(f.WriteFile(o.P, []byte(o.D), fs.FileMode(o.N)))
+		err := f.WriteFile(o.P, w.payload(o.D), fs.FileMode(o.N))
+		w.scribble()
+		return fsErr(err)
 	case "readdir":
 		des, err := f.ReadDir(o.P)
 		if err != nil {
